@@ -223,14 +223,10 @@ class Sched:
         q = fine.get('qual')
         if q and not frame.f_code.co_qualname.startswith(q):
             return None
-        if fine.get('opcodes'):
-            # pre-emption between the bytecode instructions of one line
-            # (a read-modify-write of an attribute is several of them)
-            frame.f_trace_opcodes = True
         return self._line_tracer
 
     def _line_tracer(self, frame, event, arg):
-        if (event == 'line' or event == 'opcode') and not self.aborting:
+        if event == 'line' and not self.aborting:
             if self.rng_fine.random() < self.fine['p']:
                 self.yield_point('line', (frame.f_code.co_name,
                                           frame.f_lineno))
